@@ -24,10 +24,14 @@
 (*              cycle whose memory oscillates is not detected; such a run exhausts its fuel and is     *)
 (*              INCONCLUSIVE, never a verdict.                                                         *)
 (* One program of the batch and one initial memory (= one argument vector) are chosen in Init.         *)
-EXTENDS Word, TLC
+EXTENDS Word, TLC, BatchData
 LOCAL INSTANCE SequencesExt
 
-CONSTANT Progs      \* sequence of [code, const, inits, ...]; see hv/export.py
+\* The batch of compiled programs comes from the generated module BatchData (hv/export.py writes it into the
+\* scratch directory of the run; spec/BatchData.tla is an empty stand-in so that the specs parse on their own).
+\* It is a DEFINITION in an extended module on purpose: TLC evaluates such a constant definition once, whereas
+\* a CONSTANT substituted in the cfg (Progs <- MCProgs) is re-evaluated at every reference (measured: 10x slower).
+Progs == MCProgs     \* sequence of [code, rt, inits]
 
 VARIABLES prog,     \* index into Progs (constant along a behaviour)
           inp,      \* index into Progs[prog].inits (constant along a behaviour)
@@ -51,20 +55,6 @@ OpOK(o) == CASE o.k = "s" -> InRange(mem, o.v, W) [] o.k = "c" -> InRange(CMem, 
 Val(o) == CASE o.k = "i" -> o.w
             [] o.k = "s" -> RdBytes(mem, o.v, W)
             [] o.k = "c" -> RdBytes(CMem, o.v, W)
-
-\* constructors used by the generated batch modules (keeps them small: SANY is slow on big literals)
-TNone == [t |-> "N", x |-> 0, y |-> 0]
-OpN == [k |-> "n", v |-> 0, w |-> <<>>, tg |-> TNone]
-OI(v, w) == [k |-> "i", v |-> v, w |-> w, tg |-> TNone]
-OIT(v, w, tt, x, y) == [k |-> "i", v |-> v, w |-> w, tg |-> [t |-> tt, x |-> x, y |-> y]]
-OS(v) == [k |-> "s", v |-> v, w |-> <<>>, tg |-> TNone]
-OC(v) == [k |-> "c", v |-> v, w |-> <<>>, tg |-> TNone]
-I0(op) == [op |-> op, a |-> OpN, b |-> OpN, c |-> OpN, f |-> 0]
-I1(op, a) == [op |-> op, a |-> a, b |-> OpN, c |-> OpN, f |-> 0]
-I2(op, a, b) == [op |-> op, a |-> a, b |-> b, c |-> OpN, f |-> 0]
-I3(op, a, b, c) == [op |-> op, a |-> a, b |-> b, c |-> c, f |-> 0]
-IFlag(f) == [op |-> "flag", a |-> OpN, b |-> OpN, c |-> OpN, f |-> f]
-TG(tt, x, y) == [t |-> tt, x |-> x, y |-> y]
 
 (* ------------------------------------------------------------------ events *)
 Ev(k, v) == [k |-> k, v |-> v]
